@@ -126,6 +126,12 @@ func (d *Doc) computeNS(n *Node, inherited []*Node) {
 			decls = append([]Decl{{"xml", XMLNS}}, decls...)
 		}
 		for _, dc := range decls {
+			if dc.Prefix == "" && dc.URI == "" {
+				// xmlns="" un-declares the default namespace: no node, and the
+				// inherited default binding is not passed on
+				seen[""] = true
+				continue
+			}
 			if seen[dc.Prefix] {
 				// later declaration of the same prefix replaces the earlier one
 				for _, x := range list {
